@@ -24,6 +24,11 @@ def routing_families(prop, tier, seed, mc):
     if tier != 'thorough':
         disp, rest = disp[:1500], rest[:3500]
     stims = [{'class': 'tlc_table', 'reg': r['reg'], 'path': r['path'], 'via': 'builder' if i % 2 else 'routes'} for i, r in enumerate(disp + rest)]
+    # a quarter of the requests carry a gRPC content type with a subtype (application/grpc+proto, +json: what other gRPC stacks send): it is
+    # a gRPC request all the same - dispatched or answered UNIMPLEMENTED exactly as with the bare type
+    for i, st in enumerate(stims):
+        if i % 4 == 1:
+            st['ctype'] = ('application/grpc+proto', 'application/grpc+json')[(i // 4) % 2]
     # a fifth of the requests (and a few of those that dispatch) keep their body open after the message: the caller has not half-closed
     for i, st in enumerate(stims):
         if (i >= len(disp) and i % 5 == 3) or (i < len(disp) and i % 100 == 7):
@@ -45,6 +50,8 @@ def routing_families(prop, tier, seed, mc):
         plans.append({'class': 'server_plan', 'reg': r['reg'], 'plan': plan, 'path': r['path'], 'via': 'server'})
         if not r['dispatches'] and len(plans) % 4 == 1:
             plans[-1]['body'] = 'open'
+        if len(plans) % 3 == 2:
+            plans[-1]['ctype'] = 'application/grpc+proto'
     # the long-named service (method paths of 63, 64, 65, 128, 129 and 300 bytes) alone and next to a.S: its own table, all of it
     lrows, lst = core.tlc_export('MC_Routing', 'MC_Routing_long.cfg', workers=1, timeout=900, name='MC_Routing_long')
     if lst.get('distinct', 0) != len(lrows):
